@@ -18,7 +18,7 @@ INTERVALS = [25, 1, 1.5, 0.5, (25, 5), (1.5, 0.5)]
 TIMEOUTS = [20, 1, 0.5, 2.5]
 BUFS = [1, 100, 1000000]
 TRANSPORTS = [None, ['polling'], ['websocket'], ['polling', 'websocket']]
-COOKIES = ['none', 'name', 'dict_str', 'dict_true', 'dict_false', 'dict_callable', 'dict_noname']
+COOKIES = ['none', 'name', 'dict_str', 'dict_true', 'dict_false', 'dict_callable', 'dict_callable_false', 'dict_noname']
 OUTCOMES = ['None', 'True', 'False', '0', 'empty', 'text', 'dict', 'list', 'raise', 'raise_type', 'send_accept', 'send_reject']
 
 
@@ -38,6 +38,8 @@ def cookie_cfg(kind):
         return {'name': 'c3', 'Secure': False, 'path': '/'}
     if kind == 'dict_callable':
         return {'name': 'c4', 'Max-Age': lambda: str(60 + _COOKIE_BOX['n']), 'Secure': lambda: True}
+    if kind == 'dict_callable_false':
+        return {'name': 'c5', 'Secure': lambda: False, 'HttpOnly': lambda: True, 'path': '/'}
     if kind == 'dict_noname':
         return {'path': '/y'}
     raise AssertionError(kind)
@@ -54,9 +56,11 @@ def cookie_ref(kind, sid, n=0):
     if kind == 'dict_true':
         return ['c2=%s; Secure; HttpOnly' % sid]
     if kind == 'dict_false':
-        return ['c3=%s; path=/' % sid, 'c3=%s; Secure=False; path=/' % sid]
+        return ['c3=%s; path=/' % sid]          # a boolean attribute that is False is absent ('Secure=False' still means Secure to a browser)
     if kind == 'dict_callable':
         return ['c4=%s; Max-Age=%d; Secure' % (sid, 60 + n)]     # the callable is evaluated for every handshake
+    if kind == 'dict_callable_false':
+        return ['c5=%s; HttpOnly; path=/' % sid]
     if kind == 'dict_noname':
         return ['io=%s; path=/y' % sid]
 
@@ -494,7 +498,7 @@ def run(ctx):
                               'deviation_bound': 1 if ctx.quick else 2, 'caps_hit': st.caps, 'determinism_gate': gate},
     }
     rep.assumptions = [
-        'a False cookie attribute may be rendered as omitted or as attr=False',
+        'a boolean cookie attribute that is False (literally or as the result of a callable) is absent from the cookie',
         'the Set-Cookie clause is judged on polling opens only (WebSocket accepts carry no engineio headers)',
         'opening over WebSocket when no WebSocket driver is available is outside the alphabet',
     ]
